@@ -1,10 +1,10 @@
-(* C10 — proofs about model/Refcount.v for the parameters found in the code (std_params). *)
+(* C10 — proofs about model/Refcount.v for the parameters found in the code: [stdp sc cg cf], where the three
+   booleans are the close-path facts of the tree (send refuses on a closed channel / the clear in _cleanup cannot
+   be skipped by on_disconnect / close() calls _cleanup in a finally). *)
 From V Require Import lib.Base model.Refcount.
 From Coq Require Import ZifyBool.
 Ltac Zify.zify_post_hook ::= Z.to_euclidean_division_equations.
 Open Scope Z_scope.
-
-Notation P0 := std_params.
 
 (* ---- counting ---- *)
 Definition b2z (b : bool) : Z := if b then 1 else 0.
@@ -13,6 +13,7 @@ Fixpoint cnt (ks : list nat) (k : nat) : Z :=
 Definition refs_m (m : msg) (k : nat) : Z :=
   match m with
   | MCall ks => cnt ks k
+  | MCallRaise ks => cnt ks k
   | MReplyRef (Some r) => b2z (Nat.eqb r k)
   | _ => 0
   end.
@@ -33,6 +34,11 @@ Definition pz (o : option Z) : Z := match o with Some r => r | None => 0 end.
 
 Lemma cnt_nonneg ks k : 0 <= cnt ks k.
 Proof. induction ks as [|j r IH]; cbn [cnt]; [lia|]. unfold b2z. destruct (Nat.eqb j k); lia. Qed.
+Lemma cnt_in ks k : In k ks -> 1 <= cnt ks k.
+Proof.
+  induction ks as [|j r IH]; intros H; [destruct H|]. cbn [cnt]. pose proof (cnt_nonneg r k).
+  destruct H as [->|H]; [rewrite Nat.eqb_refl; cbn [b2z]; lia|]. specialize (IH H). unfold b2z. destruct (Nat.eqb j k); lia.
+Qed.
 Lemma cnt_app a b k : cnt (a ++ b) k = cnt a k + cnt b k.
 Proof. induction a as [|j r IH]; cbn [cnt app]; [lia|]. rewrite IH. lia. Qed.
 Lemma refs_app a b k : refs (a ++ b) k = refs a k + refs b k.
@@ -41,9 +47,8 @@ Lemma dels_app a b k : dels (a ++ b) k = dels a k + dels b k.
 Proof. induction a as [|j r IH]; cbn [dels app]; [lia|]. rewrite IH. lia. Qed.
 Lemma refs_m_nonneg m k : 0 <= refs_m m k.
 Proof.
-  destruct m as [ks|[r|]| | | | |]; cbn [refs_m]; try lia.
-  - apply cnt_nonneg.
-  - unfold b2z. destruct (Nat.eqb r k); lia.
+  destruct m as [ks|ks|[r|]| | | | |]; cbn [refs_m]; try lia; try apply cnt_nonneg.
+  unfold b2z. destruct (Nat.eqb r k); lia.
 Qed.
 Lemma refs_nonneg q k : 0 <= refs q k.
 Proof. induction q as [|m r IH]; cbn [refs]; [lia|]. pose proof (refs_m_nonneg m k). lia. Qed.
@@ -86,6 +91,8 @@ Lemma has_del_app_r k a b : has_del k b -> has_del k (a ++ b).
 Proof. intros [[n H]|H]; [left; exists n|right]; apply in_or_app; now right. Qed.
 Lemma has_del_app_l k a b : has_del k a -> has_del k (a ++ b).
 Proof. intros [[n H]|H]; [left; exists n|right]; apply in_or_app; now left. Qed.
+Lemma has_del_cons k x r : has_del k r -> has_del k (x :: r).
+Proof. apply (has_del_app_r k [x] r). Qed.
 
 (* ---- requests through proxies in flight are covered ---- *)
 Definition mentions (m : msg) (k : nat) : Prop :=
@@ -117,21 +124,51 @@ Proof.
     + unfold upd. destruct (Nat.eqb_spec j k) as [->|Hne]; [right; now apply has_del_app_r|now left].
     + right. now apply has_del_app_l.
 Qed.
+Lemma uses_ok_in p q m k : uses_ok p q -> In m q -> mentions m k -> p k <> None \/ has_del k q.
+Proof.
+  induction q as [|x r IH]; intros Hu Hin Hk; [destruct Hin|].
+  cbn [uses_ok] in Hu. destruct Hu as [H1 H2]. destruct Hin as [->|Hin].
+  - destruct (H1 k Hk) as [H|H]; [now left|right]. now apply has_del_cons.
+  - destruct (IH H2 Hin Hk) as [H|H]; [now left|right]. now apply has_del_cons.
+Qed.
+
+Lemma mem_in k l : mem k l = true <-> In k l.
+Proof.
+  unfold mem. rewrite existsb_exists. split.
+  - intros (x & Hx & E). apply Nat.eqb_eq in E. now subst.
+  - intros H. exists k. split; [exact H|apply Nat.eqb_refl].
+Qed.
+Lemma mem_false k l : mem k l = false <-> ~ In k l.
+Proof. rewrite <- mem_in. destruct (mem k l); split; congruence. Qed.
+
+Definition nonneg (t : tbl) : Prop := forall k z, t k = Some z -> 0 <= z.
+Definition ppos (p : nat -> option Z) : Prop := forall k r, p k = Some r -> 1 <= r.
+Lemma Sv_pos_present t k : 1 <= Sv t k -> t k <> None.
+Proof. unfold Sv. destruct (t k); [discriminate|lia]. Qed.
+
+Lemma iter_succ_r {A} n (f : A -> A) x : Nat.iter (S n) f x = Nat.iter n f (f x).
+Proof. induction n as [|n IH]; [reflexivity|]. cbn [Nat.iter nat_rect] in *. now rewrite IH. Qed.
+Lemma iter_S {A} n (f : A -> A) x : Nat.iter (S n) f x = f (Nat.iter n f x).
+Proof. reflexivity. Qed.
+Lemma iter_pres {A} (Q : A -> Prop) (f : A -> A) n s : (forall x, Q x -> Q (f x)) -> Q s -> Q (Nat.iter n f s).
+Proof. intros Hf Hs. induction n; cbn [Nat.iter nat_rect]; auto. Qed.
+
+Section Std.
+Variables sc cg cf : bool.
+Notation P0 := (stdp sc cg cf).
 
 (* ---- RefCountingColl ---- *)
-Definition nonneg (t : tbl) : Prop := forall k z, t k = Some z -> 0 <= z.
-
 Lemma add_Sv t j k : Sv (coll_add P0 t j) k = Sv t k + b2z (Nat.eqb j k).
 Proof.
   unfold coll_add, Sv, upd. rewrite (Nat.eqb_sym j k).
-  destruct (Nat.eqb_spec k j) as [->|Hne]; cbn [b2z P0 p_add_init p_add_inc std_params].
+  destruct (Nat.eqb_spec k j) as [->|Hne]; cbn [b2z p_add_init p_add_inc stdp].
   - destruct (t j); lia.
   - destruct (t k); lia.
 Qed.
 Lemma add_nonneg t j : nonneg t -> nonneg (coll_add P0 t j).
 Proof.
   intros H k z. unfold coll_add, upd. destruct (Nat.eqb_spec k j) as [->|Hne]; [|apply H].
-  cbn [P0 p_add_init p_add_inc std_params]. destruct (t j) as [z0|] eqn:E; intros [= <-]; [|lia]. specialize (H _ _ E). lia.
+  cbn [p_add_init p_add_inc stdp]. destruct (t j) as [z0|] eqn:E; intros [= <-]; [|lia]. specialize (H _ _ E). lia.
 Qed.
 Lemma box_all_spec ks : forall t, nonneg t ->
   nonneg (box_all P0 t ks) /\ forall k, Sv (box_all P0 t ks) k = Sv t k + cnt ks k.
@@ -145,7 +182,7 @@ Qed.
 Lemma decref_spec t k z n : nonneg t -> t k = Some z -> 1 <= n -> n <= z + 1 ->
   exists t', coll_decref P0 t k n = Ok t' /\ nonneg t' /\ Sv t' k = Sv t k - n /\ forall j, j <> k -> t' j = t j.
 Proof.
-  intros Ht E Hn Hz. unfold coll_decref. rewrite E. cbn [P0 p_dec_cmp std_params cmp_holds].
+  intros Ht E Hn Hz. unfold coll_decref. rewrite E. cbn [p_dec_cmp stdp cmp_holds].
   destruct (Z.ltb_spec z n) as [Hlt|Hge]; eexists; (split; [reflexivity|]); repeat split.
   - intros j y. unfold upd. destruct (Nat.eqb j k); [discriminate|apply Ht].
   - unfold Sv, upd. rewrite Nat.eqb_refl, E. lia.
@@ -156,59 +193,74 @@ Proof.
 Qed.
 
 (* ---- the peer's proxies ---- *)
-Definition ppos (p : nat -> option Z) : Prop := forall k r, p k = Some r -> 1 <= r.
-Definition ph_ok (p : nat -> option Z) (h : nat -> nat) : Prop := forall k, p k = None <-> h k = O.
-
-Lemma unbox_spec ks : forall p h, ppos p -> ph_ok p h ->
-  let ph := fold_left (unbox1 P0) ks (p, h) in
-  ppos (fst ph) /\ ph_ok (fst ph) (snd ph) /\ (forall k, pz (fst ph k) = pz (p k) + cnt ks k) /\
-  (forall k, p k <> None -> fst ph k <> None).
+Lemma unbox_p_spec ks : forall p, ppos p ->
+  let p' := fold_left (unbox_p P0) ks p in
+  ppos p' /\ (forall k, pz (p' k) = pz (p k) + cnt ks k) /\ (forall k, p k <> None -> p' k <> None) /\
+  (forall k, In k ks -> p' k <> None) /\ (forall k, ~ In k ks -> p' k = p k).
 Proof.
-  induction ks as [|j r IH]; intros p h Hp Hh; cbn [fold_left cnt].
-  - repeat split; auto; try apply Hh. intros; cbn [fst]; lia.
-  - set (p1 := upd p j (match p j with Some x => Some (x + p_unbox_inc P0) | None => Some (p_proxy_init P0) end)).
-    set (h1 := upd h j (S (h j))).
-    assert (E : unbox1 P0 (p, h) j = (p1, h1)) by reflexivity. rewrite E.
+  induction ks as [|j r IH]; intros p Hp; cbn [fold_left cnt].
+  - repeat split; auto; try (intros; lia); intros k [].
+  - set (p1 := unbox_p P0 p j).
     assert (Hp1 : ppos p1).
-    { intros k x. unfold p1, upd. destruct (Nat.eqb_spec k j) as [->|]; [|apply Hp].
-      cbn [P0 p_unbox_inc p_proxy_init std_params]. destruct (p j) as [y|] eqn:Ey; intros [= <-]; [|lia]. specialize (Hp _ _ Ey). lia. }
-    assert (Hh1 : ph_ok p1 h1).
-    { intros k. unfold p1, h1, upd. destruct (Nat.eqb_spec k j) as [->|]; [|apply Hh].
-      split; [destruct (p j); discriminate|discriminate]. }
-    destruct (IH p1 h1 Hp1 Hh1) as (A & B & C & D). repeat split; auto; try apply B.
-    + intros k. rewrite C. unfold p1, upd. rewrite (Nat.eqb_sym j k).
+    { intros k x. unfold p1, unbox_p, upd. destruct (Nat.eqb_spec k j) as [->|]; [|apply Hp].
+      cbn [p_unbox_inc p_proxy_init stdp]. destruct (p j) as [y|] eqn:Ey; intros [= <-]; [|lia]. specialize (Hp _ _ Ey). lia. }
+    assert (Hj : p1 j <> None) by (unfold p1, unbox_p, upd; rewrite Nat.eqb_refl; destruct (p j); discriminate).
+    destruct (IH p1 Hp1) as (A & C & D & E & F). repeat split; auto.
+    + intros k. rewrite C. unfold p1, unbox_p, upd. rewrite (Nat.eqb_sym j k).
       destruct (Nat.eqb_spec k j) as [->|]; cbn [b2z]; [|lia].
-      cbn [P0 p_unbox_inc p_proxy_init std_params]. destruct (p j); cbn [pz]; lia.
-    + intros k Hk. apply D. unfold p1, upd. destruct (Nat.eqb_spec k j) as [->|]; [|exact Hk]. destruct (p j); discriminate.
+      cbn [p_unbox_inc p_proxy_init stdp]. destruct (p j); cbn [pz]; lia.
+    + intros k Hk. apply D. unfold p1, unbox_p, upd. destruct (Nat.eqb_spec k j) as [->|]; [|exact Hk]. destruct (p j); discriminate.
+    + intros k [<-|Hk]; [now apply D|now apply E].
+    + intros k Hk. rewrite F by (intros H; apply Hk; now right).
+      unfold p1, unbox_p, upd. destruct (Nat.eqb_spec k j) as [->|]; [exfalso; apply Hk; now left|reflexivity].
 Qed.
 
-(* ---- the invariant of open connections ---- *)
-Record Inv (s : st) : Prop := {
+Lemma unbox1_fold ks : forall p h,
+  fold_left (unbox1 P0) ks (p, h) = (fold_left (unbox_p P0) ks p, fold_left (fun h k => upd h k (S (h k))) ks h).
+Proof. induction ks as [|j r IH]; intros p h; [reflexivity|]. cbn [fold_left unbox1]. apply IH. Qed.
+Lemma hfold_spec ks : forall (h : nat -> nat),
+  let h' := fold_left (fun h k => upd h k (S (h k))) ks h in
+  (forall k, In k ks -> h' k <> O) /\ (forall k, ~ In k ks -> h' k = h k) /\ (forall k, h k <> O -> h' k <> O).
+Proof.
+  induction ks as [|j r IH]; intros h; cbn [fold_left].
+  - repeat split; auto; try (intros k []).
+  - destruct (IH (upd h j (S (h j)))) as (A & B & Cc). repeat split.
+    + intros k [<-|Hk]; [apply Cc; unfold upd; now rewrite Nat.eqb_refl|now apply A].
+    + intros k Hk. rewrite B by (intros H; apply Hk; now right). unfold upd.
+      destruct (Nat.eqb_spec k j) as [->|]; [exfalso; apply Hk; now left|reflexivity].
+    + intros k Hk. apply Cc. unfold upd. destruct (Nat.eqb k j); [discriminate|exact Hk].
+Qed.
+
+(* ---- the invariant of open connections ----
+   [extra]: proxies that only a dropped traceback kept alive and that are about to be finalized *)
+Record InvW (extra : list nat) (s : st) : Prop := {
   i_open : closed s = false;
   i_cnt : forall k, Sv (slot s) k = refs (qab s) k + pz (prox s k) + dels (qba s) k;
   i_nonneg : nonneg (slot s);
   i_ppos : ppos (prox s);
   i_dpos : dels_pos (qba s);
   i_nodel0 : forall k, ~ In (MDel0 k) (qba s);
-  i_holds : ph_ok (prox s) (holds s);
+  i_h1 : forall k, prox s k = None -> holds s k = O /\ mem k (pin s) = false;
+  i_h2 : forall k, holds s k = O -> mem k (pin s) = false -> mem k extra = false -> prox s k = None;
   i_uses : uses_ok (prox s) (qba s);
-  i_errs : errs s = O
+  i_errs : errs s = O;
+  i_morph : forall k, morphed s k = false
 }.
+Notation Inv := (InvW []).
 
 Lemma init_inv : Inv init.
-Proof. split; cbn; try easy; intros k; split; auto. Qed.
+Proof. split; cbn; try easy; intros k; try split; auto. Qed.
 
-Lemma send_inv ks s : Inv s -> Inv (send P0 ks s).
+Lemma held_present e s k : InvW e s -> holds s k <> O -> prox s k <> None.
+Proof. intros I H E. apply (i_h1 e s I) in E. tauto. Qed.
+
+Lemma send_inv b ks s : Inv s -> Inv (send P0 b ks s).
 Proof.
-  intros [Ho Hc Hn Hp Hd H0 Hh Hu He]. unfold send.
+  intros [Ho Hc Hn Hp Hd H0 Hh1 Hh2 Hu He Hm]. unfold send.
   destruct (box_all_spec (filter (appref s) ks) (slot s) Hn) as [N1 N2].
-  split; cbn; auto. intros k. rewrite N2, refs_app, Hc. cbn [refs refs_m]. lia.
+  split; cbn; auto. intros k. rewrite N2, refs_app, Hc. destruct b; cbn [refs refs_m]; lia.
 Qed.
 
-Lemma forallb_all_present t ks : all_present t ks = true -> forall k, In k ks -> t k <> None.
-Proof.
-  unfold all_present. rewrite forallb_forall. intros H k Hk. specialize (H k Hk). destruct (t k); [discriminate|discriminate].
-Qed.
 Lemma all_present_false t ks : all_present t ks = false -> exists k, In k ks /\ t k = None.
 Proof.
   induction ks as [|j r IH]; cbn [all_present forallb]; [discriminate|].
@@ -217,23 +269,37 @@ Proof.
   - intros _. exists j. split; [now left|exact E].
 Qed.
 
-Lemma Sv_pos_present t k : 1 <= Sv t k -> t k <> None.
-Proof. unfold Sv. destruct (t k); [discriminate|lia]. Qed.
+Lemma inv_pz_nonneg e s k : InvW e s -> 0 <= pz (prox s k).
+Proof. intros I. destruct (prox s k) as [r|] eqn:E; cbn [pz]; [pose proof (i_ppos e s I _ _ E)|]; lia. Qed.
+
+(* a request through proxies at the head of the owner's stream finds all its objects *)
+Lemma inv_use_present e s c args md q : InvW e s -> qba s = MUse c args md :: q ->
+  all_present (slot s) (c :: args) = true.
+Proof.
+  intros I Eq. destruct (all_present (slot s) (c :: args)) eqn:E; [reflexivity|exfalso].
+  destruct (all_present_false _ _ E) as (k & Hk & Ek).
+  pose proof (i_uses e s I) as Hu. rewrite Eq in Hu. cbn [uses_ok] in Hu. destruct Hu as [Hu1 _]. specialize (Hu1 k Hk).
+  pose proof (i_cnt e s I k) as Hck. rewrite Eq in Hck. cbn [dels dels_m] in Hck. unfold Sv in Hck. rewrite Ek in Hck.
+  pose proof (refs_nonneg (qab s) k). pose proof (inv_pz_nonneg e s k I).
+  assert (Hdq : dels_pos q) by (eapply dels_pos_tail; rewrite <- Eq; apply (i_dpos e s I)).
+  pose proof (dels_nonneg q k Hdq).
+  destruct Hu1 as [Hp1|Hd1].
+  - destruct (prox s k) as [r|] eqn:Er; [|congruence]. pose proof (i_ppos e s I _ _ Er). cbn [pz] in Hck. lia.
+  - pose proof (dels_has q k Hdq Hd1). lia.
+Qed.
 
 Lemma deliver_ba_inv s : Inv s -> Inv (deliver_ba P0 s).
 Proof.
-  intros I. pose proof I as [Ho Hc Hn Hp Hd H0 Hh Hu He]. unfold deliver_ba.
+  intros I. pose proof I as [Ho Hc Hn Hp Hd H0 Hh1 Hh2 Hu He Hm]. unfold deliver_ba.
   destruct (qba s) as [|m q] eqn:Eq; [exact I|].
   assert (Hdq : dels_pos q) by (eapply dels_pos_tail; eauto).
   assert (H0q : forall k, ~ In (MDel0 k) q) by (intros k Hin; apply (H0 k); now right).
   assert (Huq : uses_ok (prox s) q) by (cbn [uses_ok] in Hu; tauto).
   assert (Hrn : forall k, 0 <= refs (qab s) k) by (intros; apply refs_nonneg).
-  assert (Hpn : forall k, 0 <= pz (prox s k)) by (intros k; destruct (prox s k) as [r|] eqn:E; cbn [pz]; [specialize (Hp _ _ E)|]; lia).
+  assert (Hpn : forall k, 0 <= pz (prox s k)) by (intros k; eapply inv_pz_nonneg; eauto).
   assert (Hdn : forall k, 0 <= dels q k) by (intros; now apply dels_nonneg).
-  destruct m as [ks|r| |k n|k|c args ret|]; cbn [serve_owner].
-  - (* stray MCall: ignored *) split; cbn; auto; try (intros k; rewrite Hc; cbn [dels dels_m]; lia).
-  - split; cbn; auto; try (intros k; rewrite Hc; cbn [dels dels_m]; lia).
-  - split; cbn; auto; try (intros k; rewrite Hc; cbn [dels dels_m]; lia).
+  destruct m as [ks|ks|r| |k n|k|c args md|]; cbn [serve_owner];
+    try solve [split; cbn; auto; try (intros k; rewrite Hc; cbn [dels dels_m]; lia)].
   - (* release notice *)
     assert (Hn1 : 1 <= n) by (apply (Hd k n); now left).
     pose proof (Hc k) as Hck. cbn [dels dels_m] in Hck. rewrite Nat.eqb_refl in Hck.
@@ -241,7 +307,7 @@ Proof.
     destruct (slot s k) as [z|] eqn:Ez; [|unfold Sv in Hck; rewrite Ez in Hck; lia].
     assert (Hz : n <= z + 1) by (unfold Sv in Hck; rewrite Ez in Hck; lia).
     destruct (decref_spec (slot s) k z n Hn Ez Hn1 Hz) as (t' & Et & Nt & St & Ot).
-    cbn [set_qba slot]. rewrite Et. split; cbn; auto.
+    cbn [set_qba slot morphed]. rewrite Ez, (Hm k), Et. split; cbn; auto.
     intros j. rewrite refs_app. cbn [refs refs_m].
     destruct (Nat.eq_dec j k) as [->|Hne].
     + rewrite St. lia.
@@ -249,91 +315,143 @@ Proof.
       destruct (Nat.eqb_spec k j); [congruence|lia].
   - exfalso. apply (H0 k). now left.
   - (* request through a proxy *)
-    assert (Hall : all_present (slot s) (c :: args) = true).
-    { destruct (all_present (slot s) (c :: args)) eqn:E; [reflexivity|exfalso].
-      destruct (all_present_false _ _ E) as (k & Hk & Ek).
-      cbn [uses_ok] in Hu. destruct Hu as [Hu1 _]. specialize (Hu1 k Hk).
-      pose proof (Hc k) as Hck. cbn [dels dels_m] in Hck. unfold Sv in Hck. rewrite Ek in Hck.
-      specialize (Hrn k). specialize (Hpn k). pose proof (Hdn k).
-      destruct Hu1 as [Hp1|Hd1].
-      - destruct (prox s k) as [r|] eqn:Er; [|congruence]. specialize (Hp _ _ Er). cbn [pz] in Hck. lia.
-      - pose proof (dels_has q k Hdq Hd1). lia. }
+    pose proof (inv_use_present [] s c args md q I Eq) as Hall.
     cbn [set_qba slot]. rewrite Hall.
-    destruct ret; [destruct args as [|r args']|].
+    destruct md; [|destruct args as [|r args']|].
+    + split; cbn; auto. intros k. rewrite refs_app, Hc. cbn [refs refs_m dels dels_m]. lia.
     + split; cbn; auto. intros k. rewrite refs_app, Hc. cbn [refs refs_m dels dels_m]. lia.
     + split; cbn; auto.
       * intros k. rewrite refs_app, add_Sv, Hc. cbn [refs refs_m dels dels_m]. lia.
       * now apply add_nonneg.
     + split; cbn; auto. intros k. rewrite refs_app, Hc. cbn [refs refs_m dels dels_m]. lia.
-  - split; cbn; auto; try (intros k; rewrite Hc; cbn [dels dels_m]; lia).
 Qed.
 
-Lemma unbox_all_inv s ks d : closed s = false -> nonneg (slot s) -> ppos (prox s) -> ph_ok (prox s) (holds s) ->
+(* the peer unboxes the references ks and its application keeps them; message d is then appended *)
+Lemma unbox_all_inv s ks d : closed s = false -> nonneg (slot s) -> ppos (prox s) ->
+  (forall k, prox s k = None -> holds s k = O /\ mem k (pin s) = false) ->
+  (forall k, holds s k = O -> mem k (pin s) = false -> prox s k = None) ->
   dels_pos (qba s) -> (forall k, ~ In (MDel0 k) (qba s)) -> uses_ok (prox s) (qba s) -> errs s = O ->
+  (forall k, morphed s k = false) ->
   (forall k, Sv (slot s) k = refs (qab s) k + cnt ks k + pz (prox s k) + dels (qba s) k) ->
-  (forall j, ~ mentions d j) -> (forall j n, d <> MDel j n) -> (forall j, d <> MDel0 j) ->
-  let s' := unbox_all P0 s ks in Inv (set_qba s' (qba s' ++ [d])).
+  (forall j, ~ mentions d j) -> (forall k, dels_m d k = 0) -> (forall j n, d <> MDel j n) -> (forall j, d <> MDel0 j) ->
+  let s' := unbox_all P0 s ks in Inv (set_qba s' (qba s' ++ [d])) /\ Inv s'.
 Proof.
-  intros Ho Hn Hp Hh Hd H0 Hu He Hc Hm Hd1 Hd2. unfold unbox_all.
-  destruct (unbox_spec ks (prox s) (holds s) Hp Hh) as (A & B & C & D).
-  destruct (fold_left (unbox1 P0) ks (prox s, holds s)) as [p' h'] eqn:E. cbn [fst snd] in *.
-  split; cbn; auto.
-  - intros k. rewrite C, dels_app, Hc. cbn [dels]. destruct d; cbn [dels_m]; try lia.
-    + exfalso; eapply Hd1; eauto. + exfalso; eapply Hd2; eauto.
+  intros Ho Hn Hp Hh1 Hh2 Hd H0 Hu He Hm Hc Hmd Hdd Hd1 Hd2. unfold unbox_all.
+  rewrite unbox1_fold.
+  destruct (unbox_p_spec ks (prox s) Hp) as (A & C & D & E & F).
+  destruct (hfold_spec ks (holds s)) as (G1 & G2 & G3).
+  set (p' := fold_left (unbox_p P0) ks (prox s)) in *.
+  set (h' := fold_left (fun h k => upd h k (S (h k))) ks (holds s)) in *.
+  assert (K1 : forall k, p' k = None -> h' k = O /\ mem k (pin s) = false).
+  { intros k Ek. assert (Hnk : ~ In k ks) by (intros Hin; now apply (E k Hin)).
+    rewrite G2 by exact Hnk. apply Hh1. now rewrite <- (F k Hnk). }
+  assert (K2 : forall k, h' k = O -> mem k (pin s) = false -> p' k = None).
+  { intros k Ek Epin. assert (Hnk : ~ In k ks) by (intros Hin; now apply (G1 k Hin)).
+    rewrite F by exact Hnk. apply Hh2; [now rewrite <- (G2 k Hnk)|exact Epin]. }
+  split; split; cbn; auto.
+  - intros k. rewrite C, dels_app, Hc. cbn [dels]. rewrite Hdd. lia.
   - apply dels_pos_app; [exact Hd|]. intros k n [->|[]]. exfalso; eapply Hd1; eauto.
   - intros k Hin. apply in_app_or in Hin. destruct Hin as [Hin|[Hin|[]]]; [eapply H0; eauto|eapply Hd2; eauto].
-  - apply uses_ok_app; [eapply uses_ok_mono; eauto|]. intros k Hk. now apply Hm in Hk.
-Qed.
-
-Lemma unbox_all_inv0 s ks : closed s = false -> nonneg (slot s) -> ppos (prox s) -> ph_ok (prox s) (holds s) ->
-  dels_pos (qba s) -> (forall k, ~ In (MDel0 k) (qba s)) -> uses_ok (prox s) (qba s) -> errs s = O ->
-  (forall k, Sv (slot s) k = refs (qab s) k + cnt ks k + pz (prox s k) + dels (qba s) k) ->
-  Inv (unbox_all P0 s ks).
-Proof.
-  intros Ho Hn Hp Hh Hd H0 Hu He Hc. unfold unbox_all.
-  destruct (unbox_spec ks (prox s) (holds s) Hp Hh) as (A & B & C & D).
-  destruct (fold_left (unbox1 P0) ks (prox s, holds s)) as [p' h'] eqn:E. cbn [fst snd] in *.
-  split; cbn; auto.
+  - apply uses_ok_app; [eapply uses_ok_mono; eauto|]. intros k Hk. now apply Hmd in Hk.
   - intros k. rewrite C, Hc. lia.
   - eapply uses_ok_mono; eauto.
 Qed.
 
+(* the finalizer of proxy j runs; j is not referenced by the kept traceback *)
+Lemma finalize_invW e e' j s : InvW e s -> mem j (pin s) = false ->
+  (forall k, k <> j -> mem k e' = false -> mem k e = false) -> InvW e' (finalize P0 j s).
+Proof.
+  intros I Hj He'. pose proof I as [Ho Hc Hn Hp Hd H0 Hh1 Hh2 Hu He Hm]. unfold finalize.
+  destruct (prox s j) as [r|] eqn:Er.
+  - cbn [del_msg p_del_src stdp]. split; cbn; auto.
+    + intros k. rewrite dels_app, Hc. cbn [dels dels_m]. unfold upd. rewrite (Nat.eqb_sym j k).
+      destruct (Nat.eqb_spec k j) as [->|]; [rewrite Er; cbn [pz]; lia|lia].
+    + intros k x. unfold upd. destruct (Nat.eqb k j); [discriminate|apply Hp].
+    + apply dels_pos_app; [exact Hd|]. intros k n [[= <- <-]|[]]. eapply Hp; eauto.
+    + intros k Hin. apply in_app_or in Hin. destruct Hin as [Hin|[Hin|[]]]; [eapply H0; eauto|discriminate].
+    + intros k. unfold upd. destruct (Nat.eqb_spec k j) as [->|]; [intros _; now split|apply Hh1].
+    + intros k. unfold upd. destruct (Nat.eqb_spec k j) as [->|Hne]; [reflexivity|]. intros A B Cc. apply Hh2; auto.
+    + apply uses_ok_app_del; auto. left. exists r. now left.
+  - split; cbn; auto.
+    + intros k. unfold upd. destruct (Nat.eqb_spec k j) as [->|]; [intros _; now split|apply Hh1].
+    + intros k. unfold upd. destruct (Nat.eqb_spec k j) as [->|Hne]; [intros; exact Er|]. intros A B Cc. apply Hh2; auto.
+Qed.
+Lemma finalize_inv j s : Inv s -> mem j (pin s) = false -> Inv (finalize P0 j s).
+Proof. intros I Hj. eapply finalize_invW; eauto. Qed.
+Lemma finalize_pin j s : pin (finalize P0 j s) = pin s.
+Proof. unfold finalize. destruct (prox s j); reflexivity. Qed.
+Lemma finalize_holds j s k : holds s k = O -> holds (finalize P0 j s) k = O.
+Proof. intros H. unfold finalize. destruct (prox s j); cbn; unfold upd; destruct (Nat.eqb k j); auto. Qed.
+
+Lemma finalize_loop e : forall s, InvW e s -> (forall j, In j e -> mem j (pin s) = false) ->
+  Inv (fold_left (fun x j => finalize P0 j x) e s).
+Proof.
+  induction e as [|j r IH]; intros s I Hs; cbn [fold_left]; [exact I|].
+  apply IH.
+  - eapply finalize_invW; [exact I|apply Hs; now left|].
+    intros k Hne Hk. cbn [mem existsb]. fold (mem k r). rewrite Hk. destruct (Nat.eqb_spec k j); [contradiction|reflexivity].
+  - intros i Hi. rewrite finalize_pin. apply Hs. now right.
+Qed.
+
+(* a call served by the peer raises after unboxing ks: the new traceback references those proxies *)
+Lemma repin_inv s ks : closed s = false -> nonneg (slot s) -> ppos (prox s) ->
+  (forall k, prox s k = None -> holds s k = O /\ mem k (pin s) = false) ->
+  (forall k, holds s k = O -> mem k (pin s) = false -> prox s k = None) ->
+  dels_pos (qba s) -> (forall k, ~ In (MDel0 k) (qba s)) -> uses_ok (prox s) (qba s) -> errs s = O ->
+  (forall k, morphed s k = false) ->
+  (forall k, Sv (slot s) k = refs (qab s) k + cnt ks k + pz (prox s k) + dels (qba s) k) ->
+  Inv (repin P0 ks s).
+Proof.
+  intros Ho Hn Hp Hh1 Hh2 Hd H0 Hu He Hm Hc. unfold repin.
+  destruct (unbox_p_spec ks (prox s) Hp) as (A & C & D & E & F).
+  set (p' := fold_left (unbox_p P0) ks (prox s)) in *.
+  apply finalize_loop.
+  - split; cbn; auto.
+    + intros k. rewrite C, dels_app, Hc. cbn [dels dels_m]. lia.
+    + apply dels_pos_app; [exact Hd|]. intros k n [|[]]. discriminate.
+    + intros k Hin. apply in_app_or in Hin. destruct Hin as [Hin|[Hin|[]]]; [eapply H0; eauto|discriminate].
+    + intros k Ek. assert (Hnk : ~ In k ks) by (intros Hin; now apply (E k Hin)).
+      split; [apply Hh1; now rewrite <- (F k Hnk)|now apply mem_false].
+    + intros k Ek Epin Eex. apply mem_false in Epin. rewrite F by exact Epin.
+      destruct (prox s k) as [r|] eqn:Er; [exfalso|reflexivity].
+      destruct (mem k (pin s)) eqn:Eold.
+      * apply mem_false in Eex. apply Eex. apply filter_In. split; [now apply mem_in|].
+        unfold stale. rewrite Ek. cbn. apply mem_false in Epin. now rewrite Epin.
+      * specialize (Hh2 k Ek Eold). congruence.
+    + apply uses_ok_app; [eapply uses_ok_mono; eauto|]. intros k [].
+  - intros j Hj. apply filter_In in Hj. destruct Hj as [_ Hj]. unfold stale in Hj. cbn.
+    apply andb_prop in Hj. destruct Hj as [_ Hj]. fold (mem j ks). now destruct (mem j ks).
+Qed.
+
 Lemma deliver_ab_inv s : Inv s -> Inv (deliver_ab P0 s).
 Proof.
-  intros I. pose proof I as [Ho Hc Hn Hp Hd H0 Hh Hu He]. unfold deliver_ab.
+  intros I. pose proof I as [Ho Hc Hn Hp Hd H0 Hh1 Hh2 Hu He Hm]. unfold deliver_ab.
   destruct (qab s) as [|m q] eqn:Eq; [exact I|].
-  destruct m as [ks|[r|]| |k n|k|c args ret|]; cbn [serve_peer];
-    try (split; cbn; auto; intros k; rewrite Hc; cbn [refs refs_m]; lia).
-  - apply unbox_all_inv; cbn; auto; try discriminate.
+  assert (Hh2' : forall k, holds s k = O -> mem k (pin s) = false -> prox s k = None) by (intros; now apply Hh2).
+  destruct m as [ks|ks|[r|]| |k n|k|c args md|]; cbn [serve_peer];
+    try solve [split; cbn; auto; intros k; rewrite Hc; cbn [refs refs_m]; lia].
+  - apply (unbox_all_inv (set_qab s q) ks MReply); cbn; auto; try discriminate.
     intros k. rewrite Hc. cbn [refs refs_m]. lia.
-  - apply unbox_all_inv0; cbn; auto.
+  - apply repin_inv; cbn; auto. intros k. rewrite Hc. cbn [refs refs_m]. lia.
+  - apply (unbox_all_inv (set_qab s q) [r] MReply); cbn; auto; try discriminate.
     intros k. rewrite Hc. cbn [refs refs_m cnt]. lia.
 Qed.
 
-Lemma finalize_inv k s : Inv s -> Inv (finalize P0 k s).
+Lemma release_inv k s : Inv s -> Inv (release P0 k s).
 Proof.
-  intros I. pose proof I as [Ho Hc Hn Hp Hd H0 Hh Hu He]. unfold finalize.
-  destruct (prox s k) as [r|] eqn:Er.
-  - cbn [P0 del_msg p_del_src std_params]. split; cbn; auto.
-    + intros j. rewrite dels_app, Hc. cbn [dels dels_m]. unfold upd. rewrite (Nat.eqb_sym k j).
-      destruct (Nat.eqb_spec j k) as [->|]; [rewrite Er; cbn [pz]; lia|lia].
-    + intros j x. unfold upd. destruct (Nat.eqb j k); [discriminate|apply Hp].
-    + apply dels_pos_app; [exact Hd|]. intros j n [[= <- <-]|[]]. eapply Hp; eauto.
-    + intros j Hin. apply in_app_or in Hin. destruct Hin as [Hin|[Hin|[]]]; [eapply H0; eauto|discriminate].
-    + intros j. unfold upd. destruct (Nat.eqb_spec j k) as [->|]; [tauto|apply Hh].
-    + apply uses_ok_app_del; auto. left. exists r. now left.
-  - split; cbn; auto. intros j. unfold upd. destruct (Nat.eqb_spec j k) as [->|]; [tauto|apply Hh].
+  intros I. unfold release. destruct (mem k (pin s)) eqn:Ep; [|now apply finalize_inv].
+  pose proof I as [Ho Hc Hn Hp Hd H0 Hh1 Hh2 Hu He Hm]. split; cbn; auto.
+  - intros j Ej. destruct (Hh1 j Ej) as [A B]. split; [|exact B]. unfold upd. destruct (Nat.eqb j k); auto.
+  - intros j. unfold upd. destruct (Nat.eqb_spec j k) as [->|]; [intros _ B _; unfold mem in Ep; congruence|intros A B _; now apply Hh2].
 Qed.
-
 Lemma drop_all_inv k s : Inv s -> Inv (drop_all P0 k s).
-Proof. intros I. unfold drop_all. destruct (holds s k); [exact I|now apply finalize_inv]. Qed.
-
+Proof. intros I. unfold drop_all. destruct (holds s k); [exact I|now apply release_inv]. Qed.
 Lemma drop_one_inv k s : Inv s -> Inv (drop_one P0 k s).
 Proof.
-  intros I. unfold drop_one. destruct (holds s k) as [|[|h]] eqn:Eh; [exact I|now apply finalize_inv|].
-  pose proof I as [Ho Hc Hn Hp Hd H0 Hh Hu He]. split; cbn; auto.
-  intros j. unfold upd. destruct (Nat.eqb_spec j k) as [->|]; [|apply Hh].
-  split; [|discriminate]. intros E. apply Hh in E. congruence.
+  intros I. unfold drop_one. destruct (holds s k) as [|[|h]] eqn:Eh; [exact I|now apply release_inv|].
+  pose proof I as [Ho Hc Hn Hp Hd H0 Hh1 Hh2 Hu He Hm]. split; cbn; auto.
+  - intros j Ej. destruct (Hh1 j Ej) as [A B]. split; [|exact B]. unfold upd. destruct (Nat.eqb_spec j k) as [->|]; [congruence|exact A].
+  - intros j. unfold upd. destruct (Nat.eqb_spec j k) as [->|]; [discriminate|intros A B _; now apply Hh2].
 Qed.
 
 Lemma all_held_spec s ks : all_held s ks = true -> forall k, In k ks -> holds s k <> O.
@@ -341,42 +459,40 @@ Proof.
   unfold all_held. rewrite forallb_forall. intros H k Hk. specialize (H k Hk).
   destruct (Nat.eqb_spec (holds s k) O); [discriminate|assumption].
 Qed.
-
-Lemma use_inv c args ret s : Inv s -> Inv (use c args ret s).
+Lemma use_inv c args md s : Inv s -> Inv (use c args md s).
 Proof.
-  intros I. pose proof I as [Ho Hc Hn Hp Hd H0 Hh Hu He]. unfold use.
+  intros I. pose proof I as [Ho Hc Hn Hp Hd H0 Hh1 Hh2 Hu He Hm]. unfold use.
   destruct (all_held s (c :: args)) eqn:E; [|exact I].
   split; cbn; auto.
   - intros k. rewrite dels_app, Hc. cbn [dels dels_m]. lia.
   - apply dels_pos_app; [exact Hd|]. intros k n [|[]]. discriminate.
   - intros k Hin. apply in_app_or in Hin. destruct Hin as [Hin|[Hin|[]]]; [eapply H0; eauto|discriminate].
   - apply uses_ok_app; [exact Hu|]. intros k Hk. cbn [mentions] in Hk.
-    pose proof (all_held_spec s _ E k Hk) as Hk'. intros En. apply Hh in En. contradiction.
+    eapply held_present; [exact I|]. now apply (all_held_spec s _ E).
 Qed.
 
 Lemma iter_inv (f : st -> st) n s : (forall x, Inv x -> Inv (f x)) -> Inv s -> Inv (Nat.iter n f s).
-Proof. intros Hf Hs. induction n; cbn [Nat.iter nat_rect]; auto. Qed.
-
+Proof. apply iter_pres. Qed.
 Lemma sync_inv s : Inv s -> Inv (sync P0 s).
 Proof. intros I. unfold sync. apply iter_inv; [apply deliver_ba_inv|]. apply iter_inv; [apply deliver_ab_inv|exact I]. Qed.
-
 Lemma forget_inv k s : Inv s -> Inv (set_appref s (upd (appref s) k false)).
-Proof. intros [Ho Hc Hn Hp Hd H0 Hh Hu He]. split; cbn; auto. Qed.
+Proof. intros [Ho Hc Hn Hp Hd H0 Hh1 Hh2 Hu He Hm]. split; cbn; auto. Qed.
 
-(* ---- all states: open and invariant, or closed and empty ---- *)
-Definition Good (s : st) : Prop := if closed s then (forall k, slot s k = None) /\ errs s = O else Inv s.
+(* ---- all states of valid histories: open and invariant, or closed without a KeyError ---- *)
+Definition Good (s : st) : Prop := if closed s then errs s = O else Inv s.
 
-Lemma cleanup_good s : errs s = O -> Good (cleanup P0 s).
-Proof. intros He. unfold Good. cbn. split; [reflexivity|exact He]. Qed.
+Lemma step_closed_facts o s : closed (step_closed P0 o s) = closed s /\ errs (step_closed P0 o s) = errs s.
+Proof. destruct o; cbn [step_closed]; try (destruct (p_send_checks_closed P0)); split; reflexivity. Qed.
 
 Lemma step_good o s : valid_op o -> Good s -> Good (step P0 o s).
 Proof.
   intros Hv Hg. unfold step. unfold Good in Hg. destruct (closed s) eqn:Ec.
-  - unfold Good. rewrite Ec. exact Hg.
-  - assert (Hopen : forall x, Inv x -> Good x) by (intros x Ix; unfold Good; now rewrite (i_open x Ix)).
+  - unfold Good. destruct (step_closed_facts o s) as [A B]. rewrite A, Ec, B. exact Hg.
+  - assert (Hopen : forall x, Inv x -> Good x) by (intros x Ix; unfold Good; now rewrite (i_open [] x Ix)).
     destruct o; cbn [valid_op] in Hv; try contradiction.
     + apply Hopen. now apply send_inv.
     + apply Hopen. apply sync_inv. now apply send_inv.
+    + apply Hopen. now apply send_inv.
     + apply Hopen. now apply deliver_ab_inv.
     + apply Hopen. now apply deliver_ba_inv.
     + apply Hopen. now apply drop_one_inv.
@@ -384,9 +500,9 @@ Proof.
     + apply Hopen. now apply use_inv.
     + apply Hopen. now apply forget_inv.
     + apply Hopen. now apply sync_inv.
-    + unfold close. apply cleanup_good. destruct by_peer.
-      * apply i_errs. apply iter_inv; [apply deliver_ba_inv|exact Hg].
-      * now apply i_errs.
+    + unfold Good, close, cleanup. cbn. destruct by_peer.
+      * apply (i_errs [] _). apply iter_inv; [apply deliver_ba_inv|exact Hg].
+      * now apply (i_errs [] _).
 Qed.
 
 Lemma run_from_good ops : forall s, Forall valid_op ops -> Good s -> Good (run_from P0 s ops).
@@ -396,27 +512,21 @@ Proof.
 Qed.
 Lemma run_good ops : Forall valid_op ops -> Good (run P0 ops).
 Proof. intros Hv. apply run_from_good; [exact Hv|]. unfold Good. cbn. apply init_inv. Qed.
-
-(* ---- consequences for all histories ---- *)
-Lemma has_del_cons k x r : has_del k r -> has_del k (x :: r).
-Proof. apply (has_del_app_r k [x] r). Qed.
-Lemma uses_ok_in p q m k : uses_ok p q -> In m q -> mentions m k -> p k <> None \/ has_del k q.
-Proof.
-  induction q as [|x r IH]; intros Hu Hin Hk; [destruct Hin|].
-  cbn [uses_ok] in Hu. destruct Hu as [H1 H2]. destruct Hin as [->|Hin].
-  - destruct (H1 k Hk) as [H|H]; [now left|right]. now apply has_del_cons.
-  - destruct (IH H2 Hin Hk) as [H|H]; [now left|right]. now apply has_del_cons.
-Qed.
-
 Lemma good_open s : Good s -> closed s = false -> Inv s.
 Proof. unfold Good. intros H E. now rewrite E in H. Qed.
 Lemma good_errs s : Good s -> errs s = O.
 Proof. unfold Good. destruct (closed s); [tauto|apply i_errs]. Qed.
 
+(* ---- consequences for all histories ---- *)
+Lemma run_snoc P ops o : run P (ops ++ [o]) = step P o (run P ops).
+Proof. unfold run, run_from. now rewrite fold_left_app. Qed.
+Lemma run_app P a b : run P (a ++ b) = run_from P (run P a) b.
+Proof. unfold run, run_from. now rewrite fold_left_app. Qed.
+
 (* 1. the counting invariant *)
 Theorem count_invariant ops k : Forall valid_op ops -> closed (run P0 ops) = false ->
   Sv (slot (run P0 ops)) k = refs (qab (run P0 ops)) k + pz (prox (run P0 ops) k) + dels (qba (run P0 ops)) k.
-Proof. intros Hv Ho. apply i_cnt. apply good_open; [now apply run_good|exact Ho]. Qed.
+Proof. intros Hv Ho. apply (i_cnt []). apply good_open; [now apply run_good|exact Ho]. Qed.
 
 (* what keeps object k referenced by the owner's connection *)
 Definition held_or_in_flight (s : st) (k : nat) : Prop :=
@@ -424,16 +534,15 @@ Definition held_or_in_flight (s : st) (k : nat) : Prop :=
 
 Lemma inv_alive s k : Inv s -> held_or_in_flight s k -> slot s k <> None.
 Proof.
-  intros [Ho Hc Hn Hp Hd H0 Hh Hu He] H. apply Sv_pos_present. rewrite Hc.
-  pose proof (refs_nonneg (qab s) k). pose proof (dels_nonneg (qba s) k Hd).
-  assert (0 <= pz (prox s k)) by (destruct (prox s k) as [r|] eqn:E; cbn [pz]; [specialize (Hp _ _ E)|]; lia).
+  intros I H. pose proof I as [Ho Hc Hn Hp Hd H0 Hh1 Hh2 Hu He Hm]. apply Sv_pos_present. rewrite Hc.
+  pose proof (refs_nonneg (qab s) k). pose proof (dels_nonneg (qba s) k Hd). pose proof (inv_pz_nonneg [] s k I).
   assert (Hpp : prox s k <> None -> 1 <= pz (prox s k)).
   { destruct (prox s k) as [r|] eqn:E; [|congruence]. intros _. cbn [pz]. eapply Hp; eauto. }
-  destruct H as [H|[H|[H|(m & Hin & Hm)]]].
+  destruct H as [H|[H|[H|(m & Hin & Hmm)]]].
   - specialize (Hpp H). lia.
   - lia.
   - pose proof (dels_has _ _ Hd H). lia.
-  - destruct (uses_ok_in _ _ _ _ Hu Hin Hm) as [H|H]; [specialize (Hpp H); lia|pose proof (dels_has _ _ Hd H); lia].
+  - destruct (uses_ok_in _ _ _ _ Hu Hin Hmm) as [H|H]; [specialize (Hpp H); lia|pose proof (dels_has _ _ Hd H); lia].
 Qed.
 
 (* 2. alive while held, and no lookup at the owner ever fails *)
@@ -441,181 +550,231 @@ Theorem alive_while_held ops k : Forall valid_op ops -> closed (run P0 ops) = fa
   held_or_in_flight (run P0 ops) k -> slot (run P0 ops) k <> None /\ alive (run P0 ops) k = true.
 Proof.
   intros Hv Ho H. assert (Hs : slot (run P0 ops) k <> None) by (eapply inv_alive; eauto; apply good_open; [now apply run_good|exact Ho]).
-  split; [exact Hs|]. unfold alive. destruct (slot (run P0 ops) k); [apply orb_true_r|congruence].
+  split; [exact Hs|]. unfold alive. destruct (slot (run P0 ops) k); [|congruence]. now rewrite orb_true_r.
 Qed.
 Theorem no_keyerror ops : Forall valid_op ops -> errs (run P0 ops) = O.
 Proof. intros Hv. apply good_errs. now apply run_good. Qed.
 
-(* 3. nothing in flight and no proxy: the owner's connection has let go *)
+(* 3. nothing in flight and no proxy: the owner's table has let go; what can still keep the object alive is
+      its owner application -- or the frames of the owner connection's last traceback *)
 Theorem released_at_quiescence ops k : Forall valid_op ops -> closed (run P0 ops) = false ->
   refs (qab (run P0 ops)) k = 0 -> dels (qba (run P0 ops)) k = 0 -> prox (run P0 ops) k = None ->
-  slot (run P0 ops) k = None /\ alive (run P0 ops) k = appref (run P0 ops) k.
+  slot (run P0 ops) k = None /\ alive (run P0 ops) k = appref (run P0 ops) k || mem k (tbo (run P0 ops)).
 Proof.
   intros Hv Ho Hr Hd Hp. pose proof (count_invariant ops k Hv Ho) as H. rewrite Hr, Hd, Hp in H. cbn [pz] in H.
   assert (E : slot (run P0 ops) k = None).
   { unfold Sv in H. destruct (slot (run P0 ops) k) as [z|] eqn:E; [|reflexivity].
-    pose proof (i_nonneg _ (good_open _ (run_good ops Hv) Ho) k z E). lia. }
-  split; [exact E|]. unfold alive. rewrite E. apply orb_false_r.
+    pose proof (i_nonneg [] _ (good_open _ (run_good ops Hv) Ho) k z E). lia. }
+  split; [exact E|]. unfold alive. rewrite E. now rewrite orb_false_r.
 Qed.
 
-(* 4. closing: for every history whatsoever, also with a misbehaving peer *)
-Definition closed_cleared (s : st) : Prop := closed s = true -> forall k, slot s k = None.
-
+(* ---- closedness and queue shapes ---- *)
 Lemma serve_owner_closed m s : closed (serve_owner P0 m s) = closed s.
 Proof.
-  destruct m as [ks|r| |k n|k|c args ret|]; cbn [serve_owner]; try reflexivity.
-  - destruct (coll_decref P0 (slot s) k n); reflexivity.
-  - destruct (coll_decref P0 (slot s) k (p_dec_default P0)); reflexivity.
-  - destruct (all_present (slot s) (c :: args)); [|reflexivity]. destruct ret; [destruct args|]; reflexivity.
+  destruct m as [ks|ks|r| |k n|k|c args md|]; cbn [serve_owner]; try reflexivity.
+  - destruct (slot s k); [|reflexivity]. destruct (morphed s k); [reflexivity|]. destruct (coll_decref P0 (slot s) k n); reflexivity.
+  - destruct (slot s k); [|reflexivity]. destruct (morphed s k); [reflexivity|]. destruct (coll_decref P0 (slot s) k (p_dec_default P0)); reflexivity.
+  - destruct (all_present (slot s) (c :: args)); [|reflexivity]. destruct md; [|destruct args|]; reflexivity.
 Qed.
 Lemma deliver_ba_closed s : closed (deliver_ba P0 s) = closed s.
 Proof. unfold deliver_ba. destruct (qba s); [reflexivity|]. now rewrite serve_owner_closed. Qed.
+Lemma finalize_closed j s : closed (finalize P0 j s) = closed s.
+Proof. unfold finalize. destruct (prox s j); reflexivity. Qed.
+Lemma finalize_qab j s : qab (finalize P0 j s) = qab s.
+Proof. unfold finalize. destruct (prox s j); reflexivity. Qed.
+Lemma fold_finalize_closed l : forall s, closed (fold_left (fun x j => finalize P0 j x) l s) = closed s.
+Proof. induction l as [|j r IH]; intros s; cbn [fold_left]; [reflexivity|]. now rewrite IH, finalize_closed. Qed.
+Lemma fold_finalize_qab l : forall s, qab (fold_left (fun x j => finalize P0 j x) l s) = qab s.
+Proof. induction l as [|j r IH]; intros s; cbn [fold_left]; [reflexivity|]. now rewrite IH, finalize_qab. Qed.
 Lemma unbox_all_closed s ks : closed (unbox_all P0 s ks) = closed s.
+Proof. unfold unbox_all. destruct (fold_left (unbox1 P0) ks (prox s, holds s)). reflexivity. Qed.
+Lemma unbox_all_qab s ks : qab (unbox_all P0 s ks) = qab s.
 Proof. unfold unbox_all. destruct (fold_left (unbox1 P0) ks (prox s, holds s)). reflexivity. Qed.
 Lemma deliver_ab_closed s : closed (deliver_ab P0 s) = closed s.
 Proof.
   unfold deliver_ab. destruct (qab s) as [|m q]; [reflexivity|].
-  destruct m as [ks|[r|]| |k n|k|c args ret|]; cbn [serve_peer]; try reflexivity.
-  all: cbn; now rewrite ?unbox_all_closed.
+  destruct m as [ks|ks|[r|]| |k n|k|c args md|]; cbn [serve_peer]; try reflexivity.
+  all: first [unfold repin; now rewrite fold_finalize_closed | cbn; now rewrite ?unbox_all_closed].
 Qed.
 Lemma iter_closed (f : st -> st) n s : (forall x, closed (f x) = closed x) -> closed (Nat.iter n f s) = closed s.
 Proof. intros Hf. induction n; cbn [Nat.iter nat_rect]; [reflexivity|]. now rewrite Hf. Qed.
 Lemma sync_closed s : closed (sync P0 s) = closed s.
 Proof. unfold sync. rewrite iter_closed by apply deliver_ba_closed. now rewrite iter_closed by apply deliver_ab_closed. Qed.
 
-Lemma step_closed_cleared o s : closed_cleared s -> closed_cleared (step P0 o s).
+Lemma deliver_ab_qab s : qab (deliver_ab P0 s) = tl (qab s).
 Proof.
-  intros H. unfold step. destruct (closed s) eqn:Ec; [exact H|].
-  unfold closed_cleared. destruct o; cbn [step]; intros E;
-    try (match type of E with closed (close _ _ _) = true => intros j; reflexivity end); exfalso; revert E.
-  - cbn. congruence.
-  - rewrite sync_closed. cbn. congruence.
-  - rewrite deliver_ab_closed. congruence.
-  - rewrite deliver_ba_closed. congruence.
-  - unfold drop_one, finalize. destruct (holds s k) as [|[|h]]; [congruence| |cbn; congruence]. destruct (prox s k); cbn; congruence.
-  - unfold drop_all, finalize. destruct (holds s k); [congruence|]. destruct (prox s k); cbn; congruence.
-  - unfold use. destruct (all_held s (c :: args)); cbn; congruence.
-  - cbn. congruence.
-  - rewrite sync_closed. congruence.
-  - cbn. congruence.
-  - cbn. congruence.
+  unfold deliver_ab. destruct (qab s) as [|m q] eqn:E; [now rewrite E|].
+  destruct m as [ks|ks|[r|]| |k n|k|c args md|]; cbn [serve_peer tl]; try reflexivity.
+  all: first [unfold repin; now rewrite fold_finalize_qab | cbn; now rewrite ?unbox_all_qab].
 Qed.
-Lemma run_from_closed_cleared ops : forall s, closed_cleared s -> closed_cleared (run_from P0 s ops).
-Proof. induction ops as [|o r IH]; intros s H; cbn [run_from fold_left]; [exact H|]. apply IH. now apply step_closed_cleared. Qed.
-
-Lemma step_after_closed o s : closed s = true -> step P0 o s = s.
-Proof. intros E. unfold step. now rewrite E. Qed.
-Lemma run_from_after_closed ops : forall s, closed s = true -> run_from P0 s ops = s.
-Proof. induction ops as [|o r IH]; intros s E; cbn [run_from fold_left]; [reflexivity|]. rewrite step_after_closed by exact E. now apply IH. Qed.
-
-Lemma close_step_closed b s : closed (step P0 (Close b) s) = true.
-Proof. unfold step. destruct (closed s) eqn:E; [exact E|reflexivity]. Qed.
-
-Theorem close_releases ops b more k :
-  let s := run P0 (ops ++ Close b :: more) in closed s = true /\ slot s k = None.
+Lemma serve_owner_qba m s : qba (serve_owner P0 m s) = qba s.
 Proof.
-  cbn zeta. unfold run, run_from. rewrite fold_left_app. cbn [fold_left].
-  fold (run_from P0 init ops). set (s0 := run_from P0 init ops).
-  fold (run_from P0 (step P0 (Close b) s0) more).
-  rewrite run_from_after_closed by apply close_step_closed.
-  split; [apply close_step_closed|].
-  assert (H : closed_cleared (step P0 (Close b) s0)).
-  { apply step_closed_cleared. apply run_from_closed_cleared. intros E. discriminate. }
-  apply H. apply close_step_closed.
+  destruct m as [ks|ks|r| |k n|k|c args md|]; cbn [serve_owner]; try reflexivity.
+  - destruct (slot s k); [|reflexivity]. destruct (morphed s k); [reflexivity|]. destruct (coll_decref P0 (slot s) k n); reflexivity.
+  - destruct (slot s k); [|reflexivity]. destruct (morphed s k); [reflexivity|]. destruct (coll_decref P0 (slot s) k (p_dec_default P0)); reflexivity.
+  - destruct (all_present (slot s) (c :: args)); [|reflexivity]. destruct md; [|destruct args|]; reflexivity.
+Qed.
+Lemma deliver_ba_qba s : qba (deliver_ba P0 s) = tl (qba s).
+Proof. unfold deliver_ba. destruct (qba s) as [|m q] eqn:E; [now rewrite E|]. now rewrite serve_owner_qba. Qed.
+Lemma iter_skipn (f : st -> st) (sel : st -> list msg) : (forall s, sel (f s) = tl (sel s)) ->
+  forall n s, sel (Nat.iter n f s) = skipn n (sel s).
+Proof.
+  intros Hf. induction n as [|n IH]; intros s; [reflexivity|].
+  rewrite iter_succ_r, IH, Hf. destruct (sel s); [now rewrite skipn_nil|reflexivity].
+Qed.
+Lemma drain_ab_empty s : qab (Nat.iter (List.length (qab s)) (deliver_ab P0) s) = [].
+Proof. rewrite (iter_skipn (deliver_ab P0) qab deliver_ab_qab). apply skipn_all. Qed.
+Lemma drain_ba_empty s : qba (Nat.iter (List.length (qba s)) (deliver_ba P0) s) = [].
+Proof. rewrite (iter_skipn (deliver_ba P0) qba deliver_ba_qba). apply skipn_all. Qed.
+
+(* 2''. a request through proxies the peer holds is served: it is sent, the owner works through its stream up to
+        and including it without a KeyError, and the last thing the owner sends is the answer the callee
+        determines -- not a refusal *)
+Definition answer (args : list nat) (md : umode) : msg :=
+  match md, args with UBoom, _ => MExc | URet, r :: _ => MReplyRef (Some r) | _, _ => MReplyRef None end.
+
+Lemma run_from_dba n : forall s, closed s = false ->
+  run_from P0 s (repeat DeliverBA n) = Nat.iter n (deliver_ba P0) s.
+Proof.
+  induction n as [|n IH]; intros s Hc; [reflexivity|].
+  unfold run_from. cbn [repeat fold_left]. unfold step at 2. rewrite Hc. fold (run_from P0 (deliver_ba P0 s) (repeat DeliverBA n)).
+  rewrite IH by (now rewrite deliver_ba_closed). now rewrite iter_succ_r.
 Qed.
 
-(* every proxy the peer holds can be operated through: the request is sent, and serving it (and everything
-   before it in the stream) raises nothing at the owner *)
-Lemma iter_succ_r {A} n (f : A -> A) x : Nat.iter (S n) f x = Nat.iter n f (f x).
-Proof. induction n as [|n IH]; [reflexivity|]. cbn [Nat.iter nat_rect] in *. now rewrite IH. Qed.
-Lemma run_snoc P ops o : run P (ops ++ [o]) = step P o (run P ops).
-Proof. unfold run, run_from. now rewrite fold_left_app. Qed.
-Theorem reachable_through_proxy ops c args ret : Forall valid_op ops -> closed (run P0 ops) = false ->
+Theorem use_is_served ops c args md : Forall valid_op ops -> closed (run P0 ops) = false ->
   (forall k, In k (c :: args) -> holds (run P0 ops) k <> O) ->
-  In (MUse c args ret) (qba (run P0 (ops ++ [Use c args ret]))) /\
-  qba (run P0 ((ops ++ [Use c args ret]) ++ [Sync])) = [] /\
-  errs (run P0 ((ops ++ [Use c args ret]) ++ [Sync])) = O.
+  let s1 := run P0 (ops ++ [Use c args md]) in
+  let s2 := run P0 ((ops ++ [Use c args md]) ++ repeat DeliverBA (List.length (qba s1))) in
+  qba s1 = qba (run P0 ops) ++ [MUse c args md] /\ closed s2 = false /\ qba s2 = [] /\ errs s2 = O /\
+  exists pre, qab s2 = pre ++ [answer args md].
 Proof.
-  intros Hv Ho Hh. split; [|split].
-  - rewrite run_snoc. unfold step. rewrite Ho. unfold use.
-    assert (E : all_held (run P0 ops) (c :: args) = true).
-    { unfold all_held. apply forallb_forall. intros k Hk. specialize (Hh k Hk). now destruct (Nat.eqb_spec (holds (run P0 ops) k) O). }
-    rewrite E. cbn. apply in_or_app. right. now left.
-  - rewrite run_snoc. set (s := run P0 (ops ++ [Use c args ret])).
-    assert (Hc : closed s = false).
-    { unfold s. rewrite run_snoc. unfold step. rewrite Ho. unfold use. destruct (all_held _ _); cbn; exact Ho. }
-    unfold step. rewrite Hc. unfold sync.
-    set (s1 := Nat.iter (List.length (qab s)) (deliver_ab P0) s).
-    clearbody s1. clear. remember (List.length (qba s1)) as n eqn:En. revert s1 En.
-    induction n as [|n IH]; intros s1 En.
-    + cbn. destruct (qba s1); [reflexivity|discriminate].
-    + rewrite iter_succ_r. apply IH. unfold deliver_ba. destruct (qba s1) as [|m q] eqn:Eq; [discriminate|].
-      cbn [List.length] in En. injection En as En.
-      destruct m as [ks|r| |k n0|k|c args ret|]; cbn [serve_owner]; try (cbn; exact En).
-      * destruct (coll_decref P0 (slot (set_qba s1 q)) k n0); cbn; exact En.
-      * destruct (coll_decref P0 (slot (set_qba s1 q)) k (p_dec_default P0)); cbn; exact En.
-      * destruct (all_present (slot (set_qba s1 q)) (c :: args)); [|cbn; exact En]. destruct ret; [destruct args|]; cbn; exact En.
-  - apply no_keyerror. apply Forall_app. split; [apply Forall_app; split; [exact Hv|]|]; repeat constructor.
+  intros Hv Ho Hh. cbn zeta. set (s0 := run P0 ops) in *.
+  assert (E1 : run P0 (ops ++ [Use c args md]) = set_qba s0 (qba s0 ++ [MUse c args md])).
+  { rewrite run_snoc. fold s0. unfold step. rewrite Ho. unfold use.
+    assert (E : all_held s0 (c :: args) = true).
+    { unfold all_held. apply forallb_forall. intros k Hk. specialize (Hh k Hk). now destruct (Nat.eqb_spec (holds s0 k) O). }
+    now rewrite E. }
+  rewrite !E1. rewrite run_app, E1. set (s1 := set_qba s0 (qba s0 ++ [MUse c args md])).
+  assert (I0 : Inv s0) by (apply good_open; [now apply run_good|exact Ho]).
+  assert (I1 : Inv s1) by (pose proof (use_inv c args md s0 I0) as H; unfold use in H;
+    replace (all_held s0 (c :: args)) with true in H; [exact H|symmetry; unfold all_held; apply forallb_forall; intros k Hk; specialize (Hh k Hk); now destruct (Nat.eqb_spec (holds s0 k) O)]).
+  split; [reflexivity|].
+  rewrite run_from_dba by exact Ho.
+  cbn [qba s1 set_qba]. rewrite app_length. cbn [List.length]. rewrite Nat.add_1_r.
+  set (n := List.length (qba s0)).
+  set (sn := Nat.iter n (deliver_ba P0) s1).
+  assert (In_ : Inv sn) by (apply iter_inv; [apply deliver_ba_inv|exact I1]).
+  assert (Qn : qba sn = [MUse c args md]).
+  { unfold sn. rewrite (iter_skipn (deliver_ba P0) qba deliver_ba_qba). cbn [qba s1 set_qba].
+    rewrite skipn_app. unfold n. rewrite skipn_all, Nat.sub_diag. reflexivity. }
+  rewrite iter_S. fold sn.
+  pose proof (inv_use_present [] sn c args md [] In_ Qn) as Hall.
+  pose proof (deliver_ba_inv sn In_) as I2.
+  split; [apply (i_open [] _ I2)|]. split; [rewrite deliver_ba_qba, Qn; reflexivity|]. split; [apply (i_errs [] _ I2)|].
+  unfold deliver_ba. rewrite Qn. cbn [serve_owner set_qba slot]. rewrite Hall.
+  exists (qab sn). unfold answer. destruct md; [|destruct args|]; reflexivity.
+Qed.
+
+(* ---- histories in which no remote call raises: no traceback is kept on either side ---- *)
+Lemma calm_valid o : calm_op o -> valid_op o.
+Proof. destruct o; cbn; auto. Qed.
+Lemma calm_valid_all ops : Forall calm_op ops -> Forall valid_op ops.
+Proof. intros H. eapply Forall_impl; [|exact H]. apply calm_valid. Qed.
+
+Record quiet (s : st) : Prop := {
+  q_pin : pin s = [];
+  q_tbo : tbo s = [];
+  q_ab : forall ks, ~ In (MCallRaise ks) (qab s);
+  q_ba : forall c a, ~ In (MUse c a UBoom) (qba s)
+}.
+
+Lemma unbox_all_pin s ks : pin (unbox_all P0 s ks) = pin s /\ tbo (unbox_all P0 s ks) = tbo s /\ qba (unbox_all P0 s ks) = qba s.
+Proof. unfold unbox_all. destruct (fold_left (unbox1 P0) ks (prox s, holds s)). now repeat split. Qed.
+
+Lemma deliver_ab_quiet s : quiet s -> quiet (deliver_ab P0 s).
+Proof.
+  intros Q. pose proof Q as [Qp Qt Qa Qb]. unfold deliver_ab. destruct (qab s) as [|m q] eqn:E; [exact Q|].
+  assert (Qa' : forall ks, ~ In (MCallRaise ks) q) by (intros ks H; apply (Qa ks); try rewrite E; now right).
+  destruct m as [ks|ks|[r|]| |k n|k|c args md|]; cbn [serve_peer]; try (split; cbn; now auto).
+  - destruct (unbox_all_pin (set_qab s q) ks) as (A & B & Cc). split; cbn.
+    + now rewrite A. + now rewrite B. + now rewrite unbox_all_qab.
+    + intros c a H. rewrite Cc in H. cbn in H. apply in_app_or in H. destruct H as [H|[H|[]]]; [now apply (Qb c a)|discriminate].
+  - exfalso. apply (Qa ks). try rewrite E. now left.
+Qed.
+
+Lemma deliver_ba_quiet s : Inv s -> quiet s -> quiet (deliver_ba P0 s).
+Proof.
+  intros I Q. pose proof Q as [Qp Qt Qa Qb]. unfold deliver_ba. destruct (qba s) as [|m q] eqn:E; [exact Q|].
+  assert (Qb' : forall c a, ~ In (MUse c a UBoom) q) by (intros c a H; apply (Qb c a); try rewrite E; now right).
+  assert (R : forall x m', pin x = [] -> tbo x = [] -> qab x = qab s -> qba x = q -> (forall ks, m' <> MCallRaise ks) -> quiet (reply x m')).
+  { intros x m' A B Cc D F. split; cbn; auto.
+    - intros ks H. rewrite Cc in H. apply in_app_or in H. destruct H as [H|[H|[]]]; [now apply (Qa ks)|now apply (F ks)].
+    - now rewrite D. }
+  destruct m as [ks|ks|r| |k n|k|c args md|]; cbn [serve_owner]; try (split; cbn; now auto).
+  - cbn [set_qba slot morphed]. rewrite (i_morph [] s I k).
+    destruct (slot s k); [|apply R; cbn; auto; discriminate].
+    destruct (coll_decref P0 (slot s) k n); apply R; cbn; auto; discriminate.
+  - cbn [set_qba slot morphed]. rewrite (i_morph [] s I k).
+    destruct (slot s k); [|apply R; cbn; auto; discriminate].
+    destruct (coll_decref P0 (slot s) k (p_dec_default P0)); apply R; cbn; auto; discriminate.
+  - destruct md; try (exfalso; apply (Qb c args); try rewrite E; now left).
+    + destruct (all_present (slot (set_qba s q)) (c :: args)); apply R; cbn; auto; discriminate.
+    + destruct (all_present (slot (set_qba s q)) (c :: args)); [destruct args|]; apply R; cbn; auto; discriminate.
+Qed.
+
+Lemma sync_quiet s : Inv s -> quiet s -> quiet (sync P0 s).
+Proof.
+  intros I Q. unfold sync.
+  set (s1 := Nat.iter (List.length (qab s)) (deliver_ab P0) s).
+  assert (I1 : Inv s1) by (apply iter_inv; [apply deliver_ab_inv|exact I]).
+  assert (Q1 : quiet s1) by (apply (iter_pres quiet); [apply deliver_ab_quiet|exact Q]).
+  apply (iter_pres (fun x => Inv x /\ quiet x)); [|now split].
+  intros x [Ix Qx]. split; [now apply deliver_ba_inv|now apply deliver_ba_quiet].
+Qed.
+
+Lemma release_quiet k s : quiet s -> quiet (release P0 k s) /\ release P0 k s = finalize P0 k s.
+Proof.
+  intros Q. pose proof Q as [Qp Qt Qa Qb]. unfold release. rewrite Qp. cbn [mem existsb]. split; [|reflexivity].
+  unfold finalize. destruct (prox s k); split; cbn; auto.
+  cbn [del_msg p_del_src stdp]. intros c a H. apply in_app_or in H. destruct H as [H|[H|[]]]; [now apply (Qb c a)|discriminate].
 Qed.
 
 (* ---- from any reachable state: drop every proxy, let the notices be processed, and the entries are gone ---- *)
-Lemma iter_S {A} n (f : A -> A) x : Nat.iter (S n) f x = f (Nat.iter n f x).
-Proof. reflexivity. Qed.
-Definition no_calls (q : list msg) : Prop := forall ks, ~ In (MCall ks) q.
+Definition no_calls (q : list msg) : Prop := forall ks, ~ In (MCall ks) q /\ ~ In (MCallRaise ks) q.
 Definition only_dels (q : list msg) : Prop := forall m, In m q -> exists k n, m = MDel k n.
 Definition norefs (q : list msg) : Prop := forall k, refs q k = 0.
 
 Lemma refs_app_noref q m : norefs q -> (forall k, refs_m m k = 0) -> norefs (q ++ [m]).
 Proof. intros Hq Hm k. rewrite refs_app, Hq. cbn [refs]. rewrite Hm. lia. Qed.
 
-Lemma deliver_ab_qab s : qab (deliver_ab P0 s) = tl (qab s).
+Lemma serve_owner_no_calls m s : no_calls (qab s) -> no_calls (qab (serve_owner P0 m s)).
 Proof.
-  unfold deliver_ab. destruct (qab s) as [|m q] eqn:E; [now rewrite E|].
-  destruct m as [ks|[r|]| |k n|k|c args ret|]; cbn [serve_peer tl]; try reflexivity.
-  - unfold unbox_all. cbn. destruct (fold_left (unbox1 P0) ks (prox s, holds s)). reflexivity.
+  intros H.
+  assert (R : forall x m', (forall ks, m' <> MCall ks /\ m' <> MCallRaise ks) -> qab x = qab s -> no_calls (qab (reply x m'))).
+  { intros x m' Hm Ex ks. cbn. rewrite Ex. destruct (H ks) as [H1 H2]. destruct (Hm ks) as [M1 M2].
+    split; intros Hin; apply in_app_or in Hin; (destruct Hin as [Hin|[Hin|[]]]; [tauto|congruence]). }
+  assert (N : forall m', (m' = MExc \/ exists r, m' = MReplyRef r) -> forall ks, m' <> MCall ks /\ m' <> MCallRaise ks).
+  { intros m' [->|[r ->]] ks; split; discriminate. }
+  destruct m as [ks|ks|r| |k n|k|c args md|]; cbn [serve_owner]; try exact H.
+  - destruct (slot s k); [|apply R; auto]. destruct (morphed s k); [apply R; auto|].
+    destruct (coll_decref P0 (slot s) k n); apply R; eauto.
+  - destruct (slot s k); [|apply R; auto]. destruct (morphed s k); [apply R; auto|].
+    destruct (coll_decref P0 (slot s) k (p_dec_default P0)); apply R; eauto.
+  - destruct (all_present (slot s) (c :: args)); [|apply R; auto].
+    destruct md; [|destruct args|]; apply R; eauto.
 Qed.
-Lemma deliver_ba_qba s : qba (deliver_ba P0 s) = tl (qba s).
-Proof.
-  unfold deliver_ba. destruct (qba s) as [|m q] eqn:E; [now rewrite E|].
-  destruct m as [ks|r| |k n|k|c args ret|]; cbn [serve_owner tl]; try reflexivity.
-  - destruct (coll_decref P0 (slot (set_qba s q)) k n); reflexivity.
-  - destruct (coll_decref P0 (slot (set_qba s q)) k (p_dec_default P0)); reflexivity.
-  - destruct (all_present (slot (set_qba s q)) (c :: args)); [|reflexivity]. destruct ret; [destruct args|]; reflexivity.
-Qed.
-Lemma drain_gen (f : st -> st) (sel : st -> list msg) : (forall s, sel (f s) = tl (sel s)) ->
-  forall n s, List.length (sel s) = n -> sel (Nat.iter n f s) = [].
-Proof.
-  intros Hf. induction n as [|n IH]; intros s E.
-  - cbn. now destruct (sel s).
-  - rewrite iter_succ_r. apply IH. rewrite Hf. destruct (sel s); [discriminate|]. cbn in *. lia.
-Qed.
-Lemma drain_ab_empty s : qab (Nat.iter (List.length (qab s)) (deliver_ab P0) s) = [].
-Proof. now apply (drain_gen (deliver_ab P0) qab deliver_ab_qab). Qed.
-Lemma drain_ba_empty s : qba (Nat.iter (List.length (qba s)) (deliver_ba P0) s) = [].
-Proof. now apply (drain_gen (deliver_ba P0) qba deliver_ba_qba). Qed.
-
 Lemma deliver_ba_no_calls s : no_calls (qab s) -> no_calls (qab (deliver_ba P0 s)).
-Proof.
-  intros H. unfold deliver_ba. destruct (qba s) as [|m q]; [exact H|].
-  assert (R : forall x m', (forall ks, m' <> MCall ks) -> qab x = qab s -> no_calls (qab (reply x m'))).
-  { intros x m' Hm Ex ks Hin. cbn in Hin. rewrite Ex in Hin. apply in_app_or in Hin. destruct Hin as [Hin|[Hin|[]]]; [eapply H; eauto|eapply Hm; eauto]. }
-  destruct m as [ks|r| |k n|k|c args ret|]; cbn [serve_owner]; try exact H.
-  - destruct (coll_decref P0 (slot (set_qba s q)) k n); apply R; try discriminate; reflexivity.
-  - destruct (coll_decref P0 (slot (set_qba s q)) k (p_dec_default P0)); apply R; try discriminate; reflexivity.
-  - destruct (all_present (slot (set_qba s q)) (c :: args)); [|apply R; try discriminate; reflexivity].
-    destruct ret; [destruct args|]; apply R; try discriminate; reflexivity.
-Qed.
-Lemma iter_pres {A} (Q : A -> Prop) (f : A -> A) n s : (forall x, Q x -> Q (f x)) -> Q s -> Q (Nat.iter n f s).
-Proof. intros Hf Hs. induction n; cbn [Nat.iter nat_rect]; auto. Qed.
+Proof. intros H. unfold deliver_ba. destruct (qba s) as [|m q]; [exact H|]. now apply serve_owner_no_calls. Qed.
 
 (* a message that is not a call leaves the peer's outgoing stream alone *)
 Lemma deliver_ab_no_calls s : no_calls (qab s) -> qba (deliver_ab P0 s) = qba s /\ no_calls (qab (deliver_ab P0 s)).
 Proof.
   intros H. split.
   - unfold deliver_ab. destruct (qab s) as [|m q] eqn:E; [reflexivity|].
-    destruct m as [ks|[r|]| |k n|k|c args ret|]; cbn [serve_peer]; try reflexivity.
-    exfalso. apply (H ks). now left.
-  - rewrite deliver_ab_qab. intros ks Hin. apply (H ks). destruct (qab s); [destruct Hin|now right].
+    destruct m as [ks|ks|[r|]| |k n|k|c args md|]; cbn [serve_peer]; try reflexivity.
+    + exfalso. apply (proj1 (H ks)). now left.
+    + exfalso. apply (proj2 (H ks)). now left.
+  - rewrite deliver_ab_qab. intros ks. destruct (H ks) as [A B]. split; intros Hin; [apply A|apply B]; (destruct (qab s); [destruct Hin|now right]).
 Qed.
 
 Lemma sync_twice_empty s : let s' := sync P0 (sync P0 s) in qab s' = [] /\ qba s' = [].
@@ -625,7 +784,7 @@ Proof.
   assert (H1 : qba s1 = [] /\ no_calls (qab s1)).
   { unfold s1, sync. split; [apply drain_ba_empty|].
     apply (iter_pres (fun x => no_calls (qab x))); [apply deliver_ba_no_calls|].
-    rewrite drain_ab_empty. intros ks []. }
+    rewrite drain_ab_empty. intros ks. split; intros []. }
   destruct H1 as [Hb Hc]. unfold sync.
   set (s2 := Nat.iter (List.length (qab s1)) (deliver_ab P0) s1).
   assert (H2 : qba s2 = [] /\ qab s2 = []).
@@ -637,32 +796,33 @@ Proof.
   destruct H2 as [E1 E2]. rewrite E1. cbn. now split.
 Qed.
 
-Lemma drop_all_facts k s : Inv s -> only_dels (qba s) ->
+Lemma drop_all_facts k s : Inv s -> quiet s -> only_dels (qba s) ->
   let s' := drop_all P0 k s in
-  qab s' = qab s /\ only_dels (qba s') /\ prox s' k = None /\ (forall j, prox s j = None -> prox s' j = None).
+  quiet s' /\ qab s' = qab s /\ only_dels (qba s') /\ prox s' k = None /\ (forall j, prox s j = None -> prox s' j = None).
 Proof.
-  intros I Hd. cbn zeta. unfold drop_all. destruct (holds s k) eqn:Eh.
-  - repeat split; auto. now apply (i_holds s I).
-  - unfold finalize. destruct (prox s k) as [r|] eqn:Er.
-    + cbn [P0 del_msg p_del_src std_params]. cbn. repeat split.
+  intros I Q Hd. cbn zeta. unfold drop_all. destruct (holds s k) eqn:Eh.
+  - split; [exact Q|]. repeat split; auto. apply (i_h2 [] s I); auto. now rewrite (q_pin s Q).
+  - destruct (release_quiet k s Q) as [Q' E]. rewrite E in *. split; [exact Q'|].
+    unfold finalize. destruct (prox s k) as [r|] eqn:Er.
+    + cbn [del_msg p_del_src stdp]. cbn. repeat split.
       * intros m Hin. apply in_app_or in Hin. destruct Hin as [Hin|[<-|[]]]; [now apply Hd|now exists k, r].
       * unfold upd. now rewrite Nat.eqb_refl.
       * intros j Hj. unfold upd. now destruct (Nat.eqb j k).
     + cbn. repeat split; auto.
 Qed.
 
-Lemma drop_alls_facts ks : forall s, Inv s -> only_dels (qba s) ->
+Lemma drop_alls_facts ks : forall s, Inv s -> quiet s -> only_dels (qba s) ->
   let s' := run_from P0 s (map DropAll ks) in
-  Inv s' /\ qab s' = qab s /\ only_dels (qba s') /\ (forall k, In k ks -> prox s' k = None) /\
+  Inv s' /\ quiet s' /\ qab s' = qab s /\ only_dels (qba s') /\ (forall k, In k ks -> prox s' k = None) /\
   (forall j, prox s j = None -> prox s' j = None).
 Proof.
-  induction ks as [|k r IH]; intros s I Hd; cbn [map run_from fold_left].
-  - split; [exact I|]. repeat split; auto. intros k [].
-  - assert (Es : step P0 (DropAll k) s = drop_all P0 k s) by (unfold step; now rewrite (i_open s I)).
-    rewrite Es. destruct (drop_all_facts k s I Hd) as (A & B & Cc & D).
-    destruct (IH (drop_all P0 k s) (drop_all_inv k s I) B) as (I' & A' & B' & C' & D').
+  induction ks as [|k r IH]; intros s I Q Hd; cbn [map run_from fold_left].
+  - split; [exact I|]. split; [exact Q|]. repeat split; auto. intros k [].
+  - assert (Es : step P0 (DropAll k) s = drop_all P0 k s) by (unfold step; now rewrite (i_open [] s I)).
+    rewrite Es. destruct (drop_all_facts k s I Q Hd) as (Q1 & A & B & Cc & D).
+    destruct (IH (drop_all P0 k s) (drop_all_inv k s I) Q1 B) as (I' & Q' & A' & B' & C' & D').
     fold (run_from P0 (drop_all P0 k s) (map DropAll r)).
-    split; [exact I'|]. repeat split; auto.
+    split; [exact I'|]. split; [exact Q'|]. repeat split; auto.
     + now rewrite A'.
     + intros j [<-|Hj]; [now apply D'|now apply C'].
 Qed.
@@ -674,36 +834,74 @@ Proof.
   - rewrite deliver_ba_qba. intros m Hin. apply Hd. destruct (qba s); [destruct Hin|now right].
   - unfold deliver_ba. destruct (qba s) as [|m q] eqn:E; [exact Hr|].
     destruct (Hd m (or_introl eq_refl)) as (k & n & ->). cbn [serve_owner].
+    destruct (slot (set_qba s q) k); [|cbn; apply refs_app_noref; auto].
+    destruct (morphed (set_qba s q) k); [cbn; apply refs_app_noref; auto|].
     destruct (coll_decref P0 (slot (set_qba s q)) k n); cbn; apply refs_app_noref; auto.
   - unfold deliver_ba. destruct (qba s) as [|m q] eqn:E; [reflexivity|].
     destruct (Hd m (or_introl eq_refl)) as (k & n & ->). cbn [serve_owner].
+    destruct (slot (set_qba s q) k); [|reflexivity].
+    destruct (morphed (set_qba s q) k); [reflexivity|].
     destruct (coll_decref P0 (slot (set_qba s q)) k n); reflexivity.
 Qed.
 
-Theorem release_after_drop ops ks : Forall valid_op ops -> closed (run P0 ops) = false ->
+Lemma init_quiet : quiet init.
+Proof. split; cbn; auto. Qed.
+Lemma step_quiet o s : calm_op o -> Good s -> quiet s -> quiet (step P0 o s).
+Proof.
+  intros Hc Hg Q. pose proof Q as [Qp Qt Qa Qb]. unfold step. unfold Good in Hg. destruct (closed s) eqn:Ec.
+  - destruct o; cbn [step_closed]; try exact Q; try (destruct (p_send_checks_closed P0); [exact Q|split; cbn; auto]); split; cbn; auto.
+  - assert (App : forall q m, (forall ks, m <> MCallRaise ks) -> (forall ks, ~ In (MCallRaise ks) q) -> forall ks, ~ In (MCallRaise ks) (q ++ [m])).
+    { intros q m Hm Hq ks H. apply in_app_or in H. destruct H as [H|[H|[]]]; [now apply (Hq ks)|now apply (Hm ks)]. }
+    destruct o; cbn [calm_op] in Hc; try contradiction.
+    + split; cbn; auto. apply App; auto. discriminate.
+    + apply sync_quiet; [now apply send_inv|]. split; cbn; auto. apply App; auto. discriminate.
+    + now apply deliver_ab_quiet.
+    + now apply deliver_ba_quiet.
+    + unfold drop_one. destruct (holds s k) as [|[|h]]; [exact Q|apply release_quiet; exact Q|split; cbn; auto].
+    + unfold drop_all. destruct (holds s k); [exact Q|apply release_quiet; exact Q].
+    + unfold use. destruct (all_held s (c :: args)); [|exact Q]. split; cbn; auto.
+      intros c' a H. apply in_app_or in H. destruct H as [H|[H|[]]]; [now apply (Qb c' a)|].
+      injection H as -> -> ->. exact Hc.
+    + split; cbn; auto.
+    + now apply sync_quiet.
+    + unfold close, cleanup. destruct by_peer.
+      * set (x := Nat.iter (List.length (qba s)) (deliver_ba P0) s).
+        assert (Hx : Inv x /\ quiet x).
+        { apply (iter_pres (fun y => Inv y /\ quiet y)); [|now split]. intros y [Iy Qy]. split; [now apply deliver_ba_inv|now apply deliver_ba_quiet]. }
+        destruct Hx as [_ [Xp Xt Xa Xb]]. split; cbn; auto. rewrite Xt. now repeat match goal with |- context [if ?b then _ else _] => destruct b end.
+      * split; cbn; auto. rewrite Qt. now repeat match goal with |- context [if ?b then _ else _] => destruct b end.
+Qed.
+Lemma run_quiet ops : Forall calm_op ops -> quiet (run P0 ops).
+Proof.
+  intros Hc. assert (G : forall l s, Forall calm_op l -> Good s -> quiet s -> quiet (run_from P0 s l)).
+  { induction l as [|o r IH]; intros s Hl Hg Q; cbn [run_from fold_left]; [exact Q|]. inversion Hl; subst.
+    apply IH; [assumption|apply step_good; [now apply calm_valid|exact Hg]|now apply step_quiet]. }
+  apply G; [exact Hc| |apply init_quiet]. unfold Good. cbn. apply init_inv.
+Qed.
+
+(* 3'. constructive: from any reachable state of a history without raising calls *)
+Theorem release_after_drop ops ks : Forall calm_op ops -> closed (run P0 ops) = false ->
   let s := run P0 (ops ++ [Sync; Sync] ++ map DropAll ks ++ [Sync]) in
   closed s = false /\ qba s = [] /\ norefs (qab s) /\
   forall k, In k ks -> prox s k = None /\ slot s k = None /\ alive s k = appref s k.
 Proof.
-  intros Hv Ho. cbn zeta.
-  assert (Hvall : Forall valid_op (ops ++ [Sync; Sync] ++ map DropAll ks ++ [Sync])).
-  { apply Forall_app. split; [exact Hv|]. apply Forall_app. split; [repeat constructor|].
-    apply Forall_app. split; [|repeat constructor]. apply Forall_forall. intros o Ho'. apply in_map_iff in Ho'. destruct Ho' as (k & <- & _). exact I. }
+  intros Hcalm Ho. cbn zeta. pose proof (calm_valid_all ops Hcalm) as Hv.
   unfold run, run_from. rewrite !fold_left_app. fold (run_from P0 init ops). fold (run P0 ops).
-  set (s0 := run P0 ops).
+  pose proof (run_quiet ops Hcalm) as Q0.
+  set (s0 := run P0 ops) in *.
   assert (I0 : Inv s0) by (apply good_open; [now apply run_good|exact Ho]).
   cbn [fold_left].
-  assert (E1 : step P0 Sync s0 = sync P0 s0) by (unfold step; now rewrite (i_open _ I0)).
-  rewrite E1. pose proof (sync_inv s0 I0) as I1.
-  assert (E2 : step P0 Sync (sync P0 s0) = sync P0 (sync P0 s0)) by (unfold step; now rewrite (i_open _ I1)).
-  rewrite E2. pose proof (sync_inv _ I1) as I2.
+  assert (E1 : step P0 Sync s0 = sync P0 s0) by (unfold step; now rewrite (i_open [] _ I0)).
+  rewrite E1. pose proof (sync_inv s0 I0) as I1. pose proof (sync_quiet s0 I0 Q0) as Q1.
+  assert (E2 : step P0 Sync (sync P0 s0) = sync P0 (sync P0 s0)) by (unfold step; now rewrite (i_open [] _ I1)).
+  rewrite E2. pose proof (sync_inv _ I1) as I2. pose proof (sync_quiet _ I1 Q1) as Q2.
   destruct (sync_twice_empty s0) as [Qa Qb]. set (s2 := sync P0 (sync P0 s0)) in *.
   fold (run_from P0 s2 (map DropAll ks)).
   assert (Hd2 : only_dels (qba s2)) by (rewrite Qb; intros m []).
-  destruct (drop_alls_facts ks s2 I2 Hd2) as (I3 & A3 & B3 & C3 & _).
+  destruct (drop_alls_facts ks s2 I2 Q2 Hd2) as (I3 & Q3 & A3 & B3 & C3 & _).
   set (s3 := run_from P0 s2 (map DropAll ks)) in *.
-  assert (E3 : step P0 Sync s3 = sync P0 s3) by (unfold step; now rewrite (i_open _ I3)).
-  rewrite E3. pose proof (sync_inv _ I3) as I4.
+  assert (E3 : step P0 Sync s3 = sync P0 s3) by (unfold step; now rewrite (i_open [] _ I3)).
+  rewrite E3. pose proof (sync_inv _ I3) as I4. pose proof (sync_quiet _ I3 Q3) as Q4.
   assert (Es4 : sync P0 s3 = Nat.iter (List.length (qba s3)) (deliver_ba P0) s3).
   { unfold sync. rewrite A3, Qa. reflexivity. }
   rewrite Es4 in *.
@@ -716,12 +914,87 @@ Proof.
   assert (Hr3 : norefs (qab s3)) by (rewrite A3, Qa; intros k; reflexivity).
   destruct (G (List.length (qba s3)) s3 B3 Hr3) as (F1 & F2 & F3). fold s4 in F1, F2, F3.
   assert (Qb4 : qba s4 = []) by apply drain_ba_empty.
-  split; [apply (i_open _ I4)|]. split; [exact Qb4|]. split; [exact F2|].
+  split; [apply (i_open [] _ I4)|]. split; [exact Qb4|]. split; [exact F2|].
   intros k Hk.
   assert (Pk : prox s4 k = None) by (rewrite F3; now apply C3).
   assert (Sk : slot s4 k = None).
-  { pose proof (i_cnt _ I4 k) as Hc. rewrite F2, Pk, Qb4 in Hc. cbn in Hc.
+  { pose proof (i_cnt [] _ I4 k) as Hc. rewrite F2, Pk, Qb4 in Hc. cbn in Hc.
     unfold Sv in Hc. destruct (slot s4 k) as [z|] eqn:Ez; [|reflexivity].
-    pose proof (i_nonneg _ I4 k z Ez). lia. }
-  repeat split; auto. unfold alive. rewrite Sk. apply orb_false_r.
+    pose proof (i_nonneg [] _ I4 k z Ez). lia. }
+  repeat split; auto. unfold alive. rewrite Sk, (q_tbo _ Q4). cbn. now rewrite !orb_false_r.
 Qed.
+
+(* ---- closing ---- *)
+(* 4. at the instant of closing (by either side, whatever happened before, also with a misbehaving peer):
+      if the closing connection reaches its clear, every entry is gone *)
+Theorem close_releases_now ops b f k : closed (run P0 ops) = false -> close_reaches_clear P0 b f = true ->
+  closed (run P0 (ops ++ [Close b f])) = true /\ slot (run P0 (ops ++ [Close b f])) k = None.
+Proof.
+  intros Ho Hr. rewrite run_snoc. unfold step. rewrite Ho. unfold close, cleanup. cbn. rewrite Hr. cbn. now split.
+Qed.
+(* ... and when lending through a closed connection is refused before boxing, nothing comes back afterwards *)
+Lemma step_closed_empty o s : sc = true -> closed s = true -> (forall k, slot s k = None) ->
+  closed (step P0 o s) = true /\ forall k, slot (step P0 o s) k = None.
+Proof.
+  intros Hsc Hc Hs. unfold step. rewrite Hc. destruct o; cbn [step_closed p_send_checks_closed stdp]; rewrite ?Hsc; now split.
+Qed.
+Theorem close_stays_released ops b f more k : sc = true -> closed (run P0 ops) = false -> close_reaches_clear P0 b f = true ->
+  closed (run P0 (ops ++ Close b f :: more)) = true /\ slot (run P0 (ops ++ Close b f :: more)) k = None.
+Proof.
+  intros Hsc Ho Hr.
+  replace (ops ++ Close b f :: more) with ((ops ++ [Close b f]) ++ more) by (now rewrite <- app_assoc).
+  rewrite run_app.
+  assert (H0 : closed (run P0 (ops ++ [Close b f])) = true /\ forall j, slot (run P0 (ops ++ [Close b f])) j = None).
+  { split; [apply (close_releases_now ops b f k Ho Hr)|]. intros j. apply (close_releases_now ops b f j Ho Hr). }
+  revert H0. generalize (run P0 (ops ++ [Close b f])). induction more as [|o r IH]; intros s [Hc Hs]; cbn [run_from fold_left].
+  - split; [exact Hc|apply Hs].
+  - apply IH. now apply step_closed_empty.
+Qed.
+End Std.
+
+(* ---- witnesses: what breaks which clause ---- *)
+(* a raising call on the lent object: released, forgotten by its owner, and still alive (A._last_traceback) *)
+Theorem alive_exact_refuted sc cg cf : exists ops k,
+  Forall valid_op ops /\ closed (run (stdp sc cg cf) ops) = false /\
+  refs (qab (run (stdp sc cg cf) ops)) k = 0 /\ dels (qba (run (stdp sc cg cf) ops)) k = 0 /\
+  prox (run (stdp sc cg cf) ops) k = None /\ slot (run (stdp sc cg cf) ops) k = None /\
+  appref (run (stdp sc cg cf) ops) k = false /\ alive (run (stdp sc cg cf) ops) k = true.
+Proof.
+  exists [SendSync [0]; Use 0 [] UBoom; Sync; Sync; DropAll 0; Sync; Sync; Forget 0]%nat, 0%nat.
+  split; [repeat constructor|]. vm_compute. repeat split; reflexivity.
+Qed.
+(* a raising call at the peer: the peer application holds nothing, everything has been delivered, and the
+   proxy lives on in B._last_traceback, so the owner's entry stays *)
+Theorem release_after_drop_refuted sc cg cf : exists ops k,
+  Forall valid_op ops /\ closed (run (stdp sc cg cf) ops) = false /\
+  let s := run (stdp sc cg cf) (ops ++ [Sync; Sync] ++ map DropAll [k] ++ [Sync]) in
+  closed s = false /\ qab s = [] /\ qba s = [] /\ holds s k = O /\ prox s k = Some 1 /\ slot s k = Some 0.
+Proof.
+  exists [SendRaise [0]]%nat, 0%nat. split; [repeat constructor|]. vm_compute. repeat split; reflexivity.
+Qed.
+(* the key of a lent object changes: its release notice raises KeyError at the owner and the entry is never released *)
+Theorem unstable_key_refuted sc cg cf : exists ops k,
+  Forall valid_op ops /\
+  let s := run (stdp sc cg cf) (ops ++ [Morph k; DropAll k; Sync; Sync]) in
+  closed s = false /\ qba s = [] /\ prox s k = None /\ holds s k = O /\ errs s = 1%nat /\ slot s k = Some 0.
+Proof.
+  exists [SendSync [0]]%nat, 0%nat. split; [repeat constructor|]. vm_compute. repeat split; reflexivity.
+Qed.
+(* lending through a closed connection that does not refuse before boxing: an entry that nothing will release *)
+Theorem close_stays_released_refuted cg cf : exists ops more k,
+  Forall valid_op (ops ++ Close false FNone :: more) /\ closed (run (stdp false cg cf) ops) = false /\
+  slot (run (stdp false cg cf) (ops ++ [Close false FNone])) k = None /\
+  closed (run (stdp false cg cf) (ops ++ Close false FNone :: more)) = true /\
+  slot (run (stdp false cg cf) (ops ++ Close false FNone :: more)) k = Some 0.
+Proof.
+  exists [SendSync [0]]%nat, [Send [0]]%nat, 0%nat. split; [repeat constructor|]. vm_compute. repeat split; reflexivity.
+Qed.
+(* a raising on_disconnect when the clear is not guarded; a raising before_closed hook when _cleanup is not in a finally *)
+Theorem close_releases_refuted_disc sc cf : exists ops b k,
+  closed (run (stdp sc false cf) ops) = false /\ closed (run (stdp sc false cf) (ops ++ [Close b FDisc])) = true /\
+  slot (run (stdp sc false cf) (ops ++ [Close b FDisc])) k = Some 0.
+Proof. exists [SendSync [0]]%nat, false, 0%nat. vm_compute. repeat split; reflexivity. Qed.
+Theorem close_releases_refuted_hook sc cg : exists ops k,
+  closed (run (stdp sc cg false) ops) = false /\ closed (run (stdp sc cg false) (ops ++ [Close false FHook])) = true /\
+  slot (run (stdp sc cg false) (ops ++ [Close false FHook])) k = Some 0.
+Proof. exists [SendSync [0]]%nat, 0%nat. vm_compute. repeat split; reflexivity. Qed.
